@@ -96,7 +96,7 @@ def case_hash(case) -> str:
 
 
 # ----------------------------------------------------------------------------- matrices with prescribed spectra
-SPECTRA = ["geom", "lin", "flat", "cluster", "rankdef", "zero_block", "random"]
+SPECTRA = ["geom", "lin", "flat", "cluster", "rankdef", "zero_block", "random", "logwide"]
 
 
 def spectrum(kind, r, rng):
@@ -116,6 +116,8 @@ def spectrum(kind, r, rng):
         return s
     if kind == "random":
         return np.sort(rng.uniform(0.05, 1.0, r))[::-1]
+    if kind == "logwide":
+        return np.logspace(0, -7, r) if r > 1 else np.ones(1)  # seven decades: resolves a solver that squares the matrix
     raise ValueError(kind)
 
 
